@@ -499,9 +499,11 @@ class Runner:
         if name == "poll":
             # the idiom of the tests: while sim.is_starting_or_running(): sleep
             n = 0
+            self._eager(det, lambda: not self.sim.is_starting_or_running())
             while self.sim.is_starting_or_running() and n < 100000:
                 detsim.coop_sleep(0.01)
                 n += 1
+            det.eager = None
             H.append(("polled", self.cmd_index, n))
             return None
         if name == "sleep":
@@ -511,10 +513,12 @@ class Runner:
             # a caller that waits until the simulator *reports* a stable state
             # and then issues its next command at once
             n = 0
-            while self.sim.run_state.name not in ("STOPPED", "ENDED", "INITIALIZED",
-                                                  "NOT_INITIALIZED") and n < 3000:
+            stable = ("STOPPED", "ENDED", "INITIALIZED", "NOT_INITIALIZED")
+            self._eager(det, lambda: self.sim.run_state.name in stable)
+            while self.sim.run_state.name not in stable and n < 3000:
                 detsim.coop_sleep(0.001)
                 n += 1
+            det.eager = None
             H.append(("polled", self.cmd_index, n))
             return None
         if name == "drain":
@@ -538,6 +542,10 @@ class Runner:
         self.cmd_steps[i] = [det.step, None]
         self.cmd_clock[i] = [det.clock, None]
         H.append(("cmd", i, name, "invoke", lt.id, before))
+        det.eager = None
+        if name in ("start", "step", "run_up_to", "run_up_to_incl") and lt is det.driver:
+            # (start() itself sleeps until the run thread has picked the command up)
+            self._eager(det, lambda: self.sim.run_state.name in ("STOPPED", "ENDED"))
         try:
             self._call(cmd)
             out = "ok"
@@ -554,6 +562,16 @@ class Runner:
         self.cmd_clock[i][1] = det.clock
         H.append(("cmd", i, name, "return", lt.id, out, self.snapshot()))
         return out
+
+    def _eager(self, det, pred):
+        """Fault 'eager poller': the polling caller is woken a few lines after
+        the state it waits for is published and the publishing thread is stalled
+        (sched['eager'] = [stall seconds, delay in lines]); replays follow the
+        recorded decision instead."""
+        sc = self.case.get("sched") or {}
+        eg = sc.get("eager")
+        if eg and sc.get("kind") != "replay":
+            det.eager = [det.current, pred, eg[0], eg[1]]
 
     def do_cmd_from_callback(self, cmd, where, owner=None, idx=None):
         """A lifecycle command issued from a handler or a listener (runs on
